@@ -683,4 +683,19 @@ def exF : Fld :=
     valid := ⟨[5, 2], fun i => decide (i ≠ [3, 1])⟩, vdims := some ["x", "y"], vmap := [("x", "x"), ("y", "y")],
     unit := none }
 
+/-- `exF` on the same mesh with the axes renamed `n`, `y` and the boundary condition `neumann`: before
+repo fix 61bf94db the axis `n` counted as periodic because `"n" in "neumann"` -/
+def exFN : Fld :=
+  { exF with mesh := { exF.mesh with region := { exF.mesh.region with dims := ["n", "y"] }, bc := "neumann" } }
+
+/-- a 3-d field whose third axis has the two-character name `xy`, periodic along `x` and `y` (`bc = "xy"`):
+before the fix the axis `xy` counted as periodic because `"xy" in "xy"` -/
+def exFXY : Fld :=
+  { mesh := { region := { pmin := [0, 0, 0], pmax := [4, 3, 2], dims := ["x", "y", "xy"], units := ["m", "m", "m"],
+                          tol := 1/1000000000000 },
+              n := [4, 3, 2], bc := "xy", subs := [] },
+    nvdim := 1,
+    data := ⟨[4, 3, 2], fun i => [((i.getD 2 0 : Nat) : Rat) ^ 2]⟩,
+    valid := ⟨[4, 3, 2], fun _ => true⟩, vdims := none, vmap := [], unit := none }
+
 end DFV.C04
